@@ -313,5 +313,17 @@ def check(eng, res):
         if isinstance(n, ast.Expr) and isinstance(n.value, ast.Call) and callee_name(n.value) in ("RuntimeError", "ValueError", "Exception"):
             res.info(f"{g.module.relpath}:{n.lineno} an exception object is constructed but not raised in the rule matcher")
     res.floor("R-FF-ROLE", sum(1 for o in res.obligations if o.rule == "R-FF-ROLE"), 6)
+    # history-free: no table of the assignment class is shared between instances (shared with C10)
+    from . import c10 as _c10
+
+    _sub = type(res)(res.prop)
+    _c10.shared_mutable(eng, _sub)
+    for _o in _sub.obligations:
+        if "forcefield" in _o.function or "SMARTS" in _o.function:
+            res.obligations.append(_o)
+    res.doc("R-NO-SHARED-MUTABLE", "no lookup table of the assignment class lives in the class body (one set of tables per instance; shared with C10)")
+    cls_tables = [st for st in eng.prog.cls("SMARTS_ASSIGNMENTS").node.body if isinstance(st, ast.Assign)]
+    res.ob("R-NO-SHARED-MUTABLE", "forcefield_helper.SMARTS_ASSIGNMENTS", "no-class-level-tables", "the assignment class binds no table in its class body", "-", not [st for st in cls_tables if isinstance(st.value, (ast.Dict, ast.List, ast.Set, ast.Call))],
+           f"{[src(st)[:40] for st in cls_tables]}")
     res.assumptions += ["the bundled data files are those of the pinned tree (content not analysed)"]
     res.not_decided += ["element-consistent masses (content of the data files)", "independence of atom numbering (RDKit substructure matching)", "totality on typable chemistry"]
